@@ -242,10 +242,12 @@ def evaluate(case, keep_scratch=False):
         if out and not case.get('ooaofooa'):
             twin = _upper_types(spec)
             if twin != spec and Reference(spec).has_zero_unique_id():
-                # the same model with its type names in upper case: when that passes, the failure is one of type-name spelling
-                if not _checks(case, twin, tmpdir):
-                    out = [dict(clause=F9_CLAUSE, observed=dict(f['observed'], clause=f['clause']), required=f['required'])
-                           for f in out]
+                # the same model with its type names in upper case: an observation that fails only on the original is a
+                # failure of type-name spelling
+                twin_fails = set((f['clause'], f['observed'].get('call')) for f in _checks(case, twin, tmpdir))
+                out = [f if (f['clause'], f['observed'].get('call')) in twin_fails else
+                       dict(clause=F9_CLAUSE, observed=dict(f['observed'], clause=f['clause']), required=f['required'])
+                       for f in out]
         return out
     finally:
         if tmpdir and not keep_scratch:
@@ -640,7 +642,7 @@ def _drive1(ctx, cases, sharded):
       bound='one association of each of the 16 shapes {1,1C,M,MC}x{1,1C,M,MC}, binary (A ids over {1,2}, B references over {1,2,dangling}, '
             '0..2 (quick) / 0..3 (thorough) instances per class, duplicate keys give over-populated ends) and reflexive with phrases; loaded from SQL text '
             'and, where no single end is over-populated, also built with relate(); every second loaded model also through the xtuml tool',
-      shards=6, weight=2)
+      shards=4, weight=2)
 def association_shapes(ctx):
     _drive(ctx, shape_cases(2 if ctx.quick else 3))
 
@@ -649,7 +651,7 @@ def association_shapes(ctx):
       bound='one class, identifier over one attribute (integer, string, unique_id in 4 spellings; values null/0/1 resp. null/a/b; <= 4 instances) or '
             'over two attributes (composite, two identifiers, overlapping identifiers; 4 type pairs; <= 2 (quick) / <= 3 (thorough) instances); '
             'loaded (named INSERT for missing values, ids as numbers or guid text) and through the API',
-      shards=4, weight=2)
+      shards=3, weight=2)
 def identifier_sets(ctx):
     _drive(ctx, identifier_cases(4, 2 if ctx.quick else 3))
 
@@ -667,9 +669,9 @@ def subtypes(ctx):
       bound='random models: <= 3 classes, <= 3 associations (any shape, reflexive with phrases, shared association numbers, composite keys, '
             'referential attributes inside identifiers), <= 4 instances per class, null/zero/duplicate identifying values, type names in 4 spellings; '
             'loaded and via API (with unrelate/delete); xtuml tool with 4 sampled (quick) / all (thorough) subsets of -r and -k; sampled',
-      shards=3, weight=2)
+      shards=4, weight=2)
 def random_models(ctx):
-    count = 250 if ctx.quick else 2500
+    count = 250 if ctx.quick else 2500   # per shard
     _drive(ctx, random_cases(ctx.rng, count, not ctx.quick), sharded=False)
     ctx.exhausted = False
 
@@ -677,9 +679,9 @@ def random_models(ctx):
 @item('bridgepoint-tool', stands_in_for=['bridgepoint.consistency_check.main', 'bridgepoint.consistency_check.__main__ tail'],
       bound='random instance files over <= 3 connected classes of the BridgePoint metamodel, <= 4 instances each, ids over {0,1,2,3}; the expected '
             'counts come from the metamodel text read with regular expressions (324 classes, 646 associations); -r, -k, -g; sampled',
-      shards=1, weight=1)
+      shards=3, weight=1)
 def bridgepoint_tool(ctx):
-    count = 40 if ctx.quick else 600
+    count = 20 if ctx.quick else 250     # per shard
     _drive(ctx, ooaofooa_cases(ctx.rng, count, not ctx.quick), sharded=False)
     ctx.exhausted = False
 
